@@ -93,6 +93,10 @@ def check_case(case):
     spec = case["spec"]
     key = {"what": case["label"]}
     try:
+        b_unobserved = C.save(rv.Synth(build_mm(spec)))      # a twin saved without being read by the harness first
+    except Exception:
+        b_unobserved = None
+    try:
         mm = build_mm(spec)
     except Exception as e:
         return [C.viol("api-rejects-in-domain-input", dict(key, exc=type(e).__name__), {"error": repr(e)[:200]}, case)], b""
@@ -104,6 +108,9 @@ def check_case(case):
             if ctx == "synth":
                 want = C.norm_module_for_compare(S.module(mm, in_project=False))
                 b = C.save(rv.Synth(mm))
+                if b_unobserved is not None and b_unobserved != b:
+                    vs.append(C.viol("file-depends-on-whether-the-object-was-read-first", k2,
+                                     {"first_difference": C.first_byte_diff(b_unobserved, b)}, case))
                 l = C.load_bytes(b).module
                 dec = codec.decode(b)
                 dm = dec.value["module"]
